@@ -1,9 +1,11 @@
 (* C03 — every successful compilation yields valid LLVM IR (proved part: linkage
    and calling convention of functions, over Gen/Linkage.v regenerated from
-   src/alpha/generator.rs `declare`; block structure: see Proofs/CfgProofs.v once
-   present).  Validity of the IR itself is decided by llvm-as and opt run as
+   src/alpha/generator.rs `declare`; block structure of the control-flow
+   lowering: Model/Cfg.v, Proofs/CfgProofs.v).  Validity of the IR itself is decided by llvm-as and opt run as
    independent tools on every module and on the linked program. *)
-From PV Require Import Base.Common Gen.Linkage.
+From Coq Require Import List.
+From PV Require Import Base.Common Gen.Linkage Model.Cfg Proofs.CfgProofs.
+Import ListNotations.
 
 (* `main` and `pub` functions (and imported signatures, which are Forward) are
    externally visible; everything else is private to its module. *)
@@ -27,6 +29,44 @@ Theorem C03_import_matches_definition : forall e m o,
   callconv_of true e m false o = callconv_of false e m true o.
 Proof. intros [] [] []; split; reflexivity. Qed.
 
+(* Block structure.  The generator (Statement::generate for goto, label, if,
+   block, loop; Model/Cfg.v follows LLVMAppendBasicBlock / LLVMBuildBr call by
+   call and is compared block by block with the emitted IR on every run) yields,
+   for every body whose labels are unique and whose gotos name declared labels
+   (what the scoper and resolver establish), a CFG in which block 0 is the only
+   entry block, EVERY block consists of non-terminators followed by exactly one
+   terminator whose targets exist, and every label has exactly one block. *)
+Theorem C03_lower_cfg_wf : forall body g,
+  lower_body body = Some g ->
+  NoDup (labels_list body) ->
+  incl (gotos_list body) (labels_list body) ->
+  cfg_wf (labels_list body) g.
+Proof. exact lower_cfg_wf. Qed.
+
+(* No branch ever targets the entry block (LLVM's verifier rule), nor an
+   unreachable-after-goto or after-looped block. *)
+Theorem C03_lower_branch_targets : forall body g,
+  lower_body body = Some g ->
+  forall i blk x j, get_block g i = Some blk -> In x (binstrs blk) -> In j (targets x) ->
+  exists t, tagl g j = Some t /\ tag_targetable t = true.
+Proof. exact lower_branch_targets. Qed.
+
+(* The generator's `unreachable!()` on a loop statement is reached exactly when a
+   loop is not the last statement of a braced block - which the syntax analyzer
+   rejects (C06). *)
+Theorem C03_lower_body_panics_iff : forall body,
+  lower_body body = None <-> loops_ok_list body = false.
+Proof. exact lower_body_panics_iff. Qed.
+
+(* Both hypotheses of C03_lower_cfg_wf are necessary. *)
+Theorem C03_wf_needs_declared_labels :
+  exists body g, lower_body body = Some g /\ NoDup (labels_list body) /\
+                 ~ cfg_wf (labels_list body) g.
+Proof. exact lower_cfg_wf_without_goto_hyp_refuted. Qed.
+
 Print Assumptions C03_public_main_forward_external.
+Print Assumptions C03_lower_cfg_wf.
+Print Assumptions C03_lower_branch_targets.
+Print Assumptions C03_lower_body_panics_iff.
 Print Assumptions C03_callconv.
 Print Assumptions C03_import_matches_definition.
